@@ -715,6 +715,24 @@ pub fn run_one(out: &mut Out, sc: usize, s: &J) {
         for o in ops.iter_mut() { if o["op"] == "AddInputsFromAndChangeWithCollateralReturn" { o["pct_n"] = jn(pct.saturating_add(d)); } }
         s2["ops"] = J::Array(ops);
         run_pass(out, sc, &s2);
+    } else if let Some(d) = rr.get("col_exact").and_then(|x| x.as_i64()) {
+        // the (single, pure-lovelace) collateral input holds exactly what the percentage helper asks for: fee x percentage / 100 + 1 (+ d),
+        // so that NOTHING is left to return. The fee may move when the coin changes: up to three passes until it stands still.
+        let ops = s2["ops"].as_array().cloned().unwrap_or_default();
+        let cols: Vec<u64> = ops.iter().filter(|o| o["op"] == "AddCollateral").filter_map(|o| o["u"].as_u64()).collect();
+        let pct = ops.iter().find(|o| o["op"] == "AddInputsFromAndChangeWithCollateralReturn").map(|o| u64_of(&o["pct_n"]));
+        if let (1, Some(pct)) = (cols.len(), pct) {
+            let ci = (cols[0] - 1) as usize;
+            if s2["utxo"][ci]["value"]["assets"].as_array().map(|a| a.is_empty()).unwrap_or(true) && pct <= 1000 {
+                let mut fee: u64 = tx.body().fee().into();
+                for _ in 0..3 {
+                    let need = ((fee as u128 * pct as u128) / 100 + 1) as i64 + d;
+                    if need <= 0 { break; }
+                    s2["utxo"][ci]["value"]["coin_n"] = jn(need as u64);
+                    match run_pass(out, sc, &s2) { Some((t2, _)) => { let f2: u64 = t2.body().fee().into(); if f2 == fee { break; } fee = f2; } None => break }
+                }
+            }
+        }
     } else if let Some(k) = rr.get("max_val").and_then(|x| x.as_u64()) {
         // max_value_size just below the largest value the first transaction carries
         let outs = tx.body().outputs();
@@ -1084,6 +1102,7 @@ pub fn gen(rng: &mut Rng) -> J {
     ops.push(json!({"op": "Build"}));
     if rng.chance(1, 4) { ops.push(json!({"op": "BuildAgain"})); }
     let mut scn = json!({"pp": pp, "utxo": utxo, "ops": ops});
+    if col_pct.is_some() && rng.chance(1, 3) { scn["rerun"] = json!({"col_exact": *rng.pick(&[0i64, 0, 0, 1, -1])}); return scn; }
     if col_pct.is_some() && rng.chance(1, 3) { scn["rerun"] = json!({"pct_edge": *rng.pick(&[0u64, 1, 2, 50, 100_000, 1 << 40])}); return scn; }
     if !select && col_pct.is_none() && rng.chance(1, 8) { scn["rerun"] = json!({"exact_edge": *rng.pick(&[0i64, 0, 0, 1, -1, 2, 200])}); return scn; }
     match rng.below(12) { 0 => { scn["rerun"] = json!({"max_tx": rng.below(3)}); } 1 => { scn["rerun"] = json!({"fixed_fee": rng.below(1001)}); } 2 => { scn["rerun"] = json!({"max_val": rng.below(4)}); } 3 | 4 => { scn["rerun"] = json!({"change_edge": rng.below(8000) as i64 - 2000}); } 5 | 6 => { scn["rerun"] = json!({"width_edge": rng.below(700) as i64 - 100}); } _ => {} }
